@@ -812,6 +812,13 @@ def run_property(pid: str, tier: str, jobs: int, only: str | None, keep: bool, r
             lines.append(f"VIOLATION property={pid} replay={rfile}")
             for v in new_viol[:3]:
                 lines.append(f"  harness={r['name']} profile={r['profile']} {'unexpected panic: ' if v.get('unexpected_panic') else ''}{v['desc']} @ {v['func']} ({v['file']}:{v['line']})")
+        # property-level vacuity guard: some cover witnesses must be satisfied in at least one
+        # harness of the run (e.g. C12: the other party really ran inside the writer's poll)
+        if not only:
+            for rx in spec.get("require_covers_any", []):
+                if not any(c["satisfied"] and re.search(rx, c["desc"]) for r in results for c in r.get("covers", [])):
+                    fake = dict(name="(property)", profile="-", verdict="VACUOUS", reason=f"no harness satisfied the witness /{rx}/")
+                    inconclusive.append(fake)
         for r in inconclusive:
             lines.append(f"INCONCLUSIVE property={pid} harness={r['name']}.{r['profile']} {r['verdict']}: {r.get('reason', '')}")
         if n_viol:
